@@ -85,6 +85,25 @@ List comprehensions.  `[E for v in xs if c]` is the loop `lc = []; for v in xs: 
 is local to the comprehension; a walrus `[y := E for …]` assigns the enclosing function's variable `y` (PEP 572) and
 appends its new value.  `x = []` gets its element type from the first `append`.
 
+More constructs.  `bool(e)` is the condition `e`.  A value-context `a and b` / `a or b` over non-bool operands returns
+one of the operands; it is translated to its truthiness only, with the type `Truthy`, which no construct but a
+condition accepts (a parameter may be declared `Truthy` too: "only `bool(arg)` is read").  `getattr(x, "f", d)` is `x.f`
+for an object of a configured class that declares `f`, and `d` for `None` (NoneType has no such attribute).  A local
+assigned `None` on one path and a `T` on another is an `Option T` (types are settled in a first pass).  `P[k] = v` on a
+configured dict of a caller's object (`dict_outputs`) is recorded in a list of writes; with `implicit_return` a bare
+`return` / falling off the end returns the configured view of the final state.  `calls=` maps a method call to another
+translated function (`depends=`: that function must itself translate).  `fragment=(a, b)` translates the consecutive
+top-level statements from the first one containing `a` up to, not including, the first later one containing `b`.
+
+Still more.  A parameter the function assigns to is a local initialised with the argument.  Locals are narrowed like
+paths (`if x is None: return …` makes `x` a `T` afterwards); what is known about a local is dropped when it is assigned,
+after an `if` one of whose branches assigns it, and after a loop whose body assigns it.  `fn_params` / `calls` with the
+raises flag / `dicts`: helper methods and dicts of the object enter as function parameters (`κ → Option ν` for a dict,
+`D[k]` raises `KeyError`); `sorted(xs, key=lambda x: E)` computes all keys first, in order (the first failure is raised),
+then sorts stably by key (insertion before the first element whose key is not smaller); `xs.index(v)` is the first
+position or `ValueError`; a handler may `return`; `except E` also catches the configured subclasses of `E`
+(`ColorValidationError ⊂ ValueError`, checked against the imported class).
+
 `isinstance(x, list)` is decided statically: `x : List _` is a Python `list` → True; an int, bool, str, `None`, or a
 record object is not → False.  An `if` (or `if not`) on such a test is translated as its live branch only — the other
 branch is dead for every input of the declared type and need not be typeable.  A union-typed input (`rtf_column_header`:
@@ -200,6 +219,82 @@ TARGETS = [
         records={}, params=[("rel_widths", "List Rat"), ("col_width", "Rat")], skip_params=[], env={},
         alias={}, outputs={}, returns={}, ret_type="List Rat",
     ),
+    dict(
+        name="FootnoteSourceBorders", file="pagination/processor.py", cls="PageFeatureProcessor",
+        func="_apply_footnote_source_borders",
+        doc="PageFeatureProcessor._apply_footnote_source_borders: which table-rendered component (source before\n"
+            "footnote) receives the border that closes the table on this page.  `has_footnote` / `has_source` are\n"
+            "whatever the caller computed with `and` (None, a str, a list, a bool): only their truthiness is read\n"
+            "(type Truthy).  The effect, `page.component_borders[key] = border_style`, is returned as the list of\n"
+            "writes in order.",
+        records={"Foot": [("as_table", "Bool")]},
+        classes=[("rtflite.input", c, {"as_table": "<class 'bool'>"}) for c in ("RTFFootnote", "RTFSource")],
+        params=[("has_footnote", "Truthy"), ("has_source", "Truthy"), ("border_style", "Str"),
+                ("rtf_footnote", "Option Foot"), ("rtf_source", "Option Foot")],
+        skip_params=["self", "document", "page"],
+        env={"document.rtf_footnote": ("rtf_footnote", "Option Foot"),
+             "document.rtf_source": ("rtf_source", "Option Foot")},
+        dict_outputs={"page.component_borders": ("component_borders", "Str", "Str")},
+        implicit_return="s.out_component_borders", ret_type="List (Str × Str)",
+        alias={}, outputs={}, returns={},
+    ),
+    dict(
+        name="BorderDecision", file="pagination/processor.py", cls="PageFeatureProcessor",
+        func="_apply_pagination_borders",
+        # a FRAGMENT of the function: the statements that decide which style closes the table on this page and whether
+        # a table-rendered footnote / source takes it (the rest of the function edits attribute matrices: deepcopy,
+        # hasattr, BroadcastValue — outside the subset)
+        fragment=("self._should_show_element(document.rtf_page.page_footnote", "self._apply_footnote_source_borders("),
+        raises=True,
+        doc="PageFeatureProcessor._apply_pagination_borders, from the statement that asks whether the footnote is shown\n"
+            "on this page (`has_footnote_on_page = …`) up to, not including, the statement that applies the closing\n"
+            "style (`if border_style: …`): is a footnote / source shown on this\n"
+            "page as a table row, and which border style closes the page's table (`None`: none).  The fragment reads no\n"
+            "local assigned before it; its result is the record of its locals (see the side file for their names).\n"
+            "`self._should_show_element` is the translated `Generated.Py.ShouldShow.run`.",
+        records={"Foot": [("text", "Option (List Str)"), ("as_table", "Bool")]},
+        classes=[("rtflite.input", c, {"text": "collections.abc.Sequence[str] | None", "as_table": "<class 'bool'>"})
+                 for c in ("RTFFootnote", "RTFSource")] +
+                [("rtflite.input", "RTFBody", {"border_last": "list[list[str]]"}),
+                 ("rtflite.input", "RTFPage", {"border_last": "str | None", "page_footnote": "<class 'str'>",
+                                               "page_source": "<class 'str'>"})],
+        params=[("is_first_page", "Bool"), ("is_last_page", "Bool"), ("rtf_footnote", "Option Foot"),
+                ("rtf_source", "Option Foot"), ("page_footnote", "Str"), ("page_source", "Str"),
+                ("body_border_last", "List (List Str)"), ("page_border_last", "Option Str")],
+        skip_params=["self", "document", "page"],
+        env={"page.is_first_page": ("is_first_page", "Bool"), "page.is_last_page": ("is_last_page", "Bool"),
+             "document.rtf_footnote": ("rtf_footnote", "Option Foot"),
+             "document.rtf_source": ("rtf_source", "Option Foot"),
+             "document.rtf_page.page_footnote": ("page_footnote", "Str"),
+             "document.rtf_page.page_source": ("page_source", "Str"),
+             "document.rtf_body.border_last": ("body_border_last", "List (List Str)"),
+             "document.rtf_page.border_last": ("page_border_last", "Option Str")},
+        calls={"self._should_show_element": ("Generated.Py.ShouldShow.run",
+                                             ["Str", ("page", ["is_first_page", "is_last_page"])], "Bool")},
+        imports=["Generated.PyShouldShow"], depends=["ShouldShow"],
+        implicit_return="s", ret_type="St", alias={}, outputs={}, returns={},
+    ),
+    dict(
+        name="RtfColorIndex", file="services/color_service.py", cls="ColorService", func="get_rtf_color_index",
+        raises=True,
+        doc="ColorService.get_rtf_color_index: the index a colour reference resolves to — 0 for no colour / black, the\n"
+            "master index without a colour list, otherwise the 1-based position in the dense table (the used colours\n"
+            "without '' and 'black', validated, sorted stably by master index), 0 when the colour is not in it.\n"
+            "Parameters that stand for the rest of the service: `name_to_type` (the dict `self._name_to_type` as a\n"
+            "lookup), `get_color_index`, `validate_color_list` (the two helpers, which may raise\n"
+            "`ColorValidationError`), `current_document_colors` (the value of the context variable during the call).",
+        records={}, exceptions=[("rtflite.services.color_service", "ColorValidationError", "ValueError")],
+        fn_params=[("name_to_type", "List Nat → Option Int"), ("get_color_index", "List Nat → Except Exc Int"),
+                   ("validate_color_list", "List (List Nat) → Except Exc (List (List Nat))")],
+        params=[("current_document_colors", "Option (List Str)"), ("color", "Str"),
+                ("used_colors", "Option (List Str)")],
+        skip_params=["self"],
+        env={"self._current_document_colors": ("current_document_colors", "Option (List Str)")},
+        calls={"self.get_color_index": ("get_color_index", ["Str"], "Int", True),
+               "self.validate_color_list": ("validate_color_list", ["List Str"], "List Str", True)},
+        dicts={"self._name_to_type": ("name_to_type", "Str", "Int")},
+        alias={}, outputs={}, returns={}, ret_type="Int",
+    ),
     _additional_rows("AdditionalRowsFlat", "List (Option Comp)", "a flat list `[header | None, …]`"),
     _additional_rows("AdditionalRowsNested", "List (List (Option Comp))",
                      "a nested list `[[header | None, …], …]` (one Python list per section)"),
@@ -212,7 +307,7 @@ def lean_str(s: str) -> str:
     return "[" + ", ".join(str(ord(c)) for c in s) + "]"
 
 
-DEFAULT = {"Int": "0", "Bool": "false", "Str": "[]", "List Int": "[]", "Char": "0", "Rat": "0"}
+DEFAULT = {"Int": "0", "Bool": "false", "Str": "[]", "List Int": "[]", "Char": "0", "Rat": "0", "Truthy": "false"}
 
 
 class Fn:
@@ -238,7 +333,12 @@ class Fn:
         for out, ty in cfg["outputs"].items():
             self.vars["out_" + out] = f"List {ty}"
         for _path, (out, kt, vt) in (cfg.get("dict_outputs") or {}).items():
-            self.vars["out_" + out] = f"List ({lean_type(kt)} × {lean_type(vt)})"
+            self.vars["out_" + out] = f"List ({kt} × {vt})"
+        # a parameter the function assigns to is a local variable initialised with the argument
+        pyargs = {a.arg for a in node.args.args}
+        self.assigned_params = [p for p, _ in cfg["params"] if p in pyargs and p in stored_names(node.body)]
+        for pname in self.assigned_params:
+            self.vars[pname] = dict(cfg["params"])[pname]
         self.vars.update(seed_vars or {})
 
     # ---- expressions: returns (lean, type)
@@ -265,10 +365,10 @@ class Fn:
             if e.id in self.bound:
                 return self.bound[e.id]
             if e.id in self.vars:
-                if e.id not in defined:
+                if e.id not in defined and e.id not in self.assigned_params:
                     raise Untranslatable(f"variable {e.id} may be read before it is assigned")
                 return f"s.{self.fld(e.id)}", self.vars[e.id]
-            if e.id in self.params:
+            if e.id in self.params and e.id not in self.assigned_params:
                 return e.id, self.params[e.id]
             raise Untranslatable(f"unknown name {e.id}")
         if isinstance(e, ast.BinOp):
@@ -414,7 +514,8 @@ class Fn:
                     return f"(match {a} with | none => {d} | some {v} => {v}.{name})", td
                 raise Untranslatable(f"{src}: {ta} has no configured field {name} of type {td}")
             if src_call := (self.cfg.get("calls") or {}).get(ast.unparse(f)):
-                lean_fn, arg_specs, rty = src_call
+                lean_fn, arg_specs, rty = src_call[:3]
+                may_raise = len(src_call) > 3 and src_call[3]
                 if len(arg_specs) != len(e.args) or e.keywords:
                     raise Untranslatable(f"call {src}: arguments changed")
                 out = []
@@ -428,7 +529,39 @@ class Fn:
                         if ta != spec:
                             raise Untranslatable(f"call {src}: argument of type {ta}, expected {spec}")
                         out.append(a)
+                if may_raise:        # a helper that may raise: bound like any raising operation
+                    return self.tmp(f"{lean_fn} " + " ".join(out), src), rty
                 return f"({lean_fn} " + " ".join(out) + ")", rty
+            if isinstance(f, ast.Name) and f.id == "sorted" and len(e.args) == 1 and len(e.keywords) == 1 and \
+                    e.keywords[0].arg == "key" and isinstance(e.keywords[0].value, ast.Lambda) and \
+                    len(e.keywords[0].value.args.args) == 1:
+                # sorted(xs, key=lambda x: E): the keys of all elements are computed first, in order (any of them may
+                # raise), then the list is sorted stably by key
+                xs, txs = self.expr(e.args[0], defined)
+                elt = t_arg(txs, "List")
+                lam = e.keywords[0].value
+                if elt is None:
+                    raise Untranslatable(f"sorted over {txs}")
+                self.nkey = getattr(self, "nkey", 0) + 1
+                kv = f"k{self.nkey}"
+                saved_bound, saved_pending = dict(self.bound), self.pending
+                self.bound[lam.args.args[0].arg] = (kv, elt)
+                self.pending = []
+                try:
+                    ev, et = self.expr(lam.body, defined)
+                    binds = self.pending
+                finally:
+                    self.bound, self.pending = saved_bound, saved_pending
+                if et != "Int":
+                    raise Untranslatable(f"sort key of type {et} in {src}")
+                body = "; ".join(binds + [f"pure {ev}"])
+                return self.tmp(f"Generated.Py.pySortedByKey {xs} (fun {kv} => do {body})", src), txs
+            if isinstance(f, ast.Attribute) and f.attr == "index" and len(e.args) == 1 and not e.keywords:
+                xs, txs = self.expr(f.value, defined)
+                v, tv = self.expr(e.args[0], defined)
+                if t_arg(txs, "List") == tv and tv in ("Str", "Int"):     # ValueError when absent
+                    return self.tmp(f"Generated.Py.pyListIndex {xs} {v}", src), "Int"
+                raise Untranslatable(f"{src} on {txs}")
             if isinstance(f, ast.Name) and f.id == "sum" and len(e.args) == 1 and not e.keywords:
                 a, ta = self.expr(e.args[0], defined)
                 if ta in ("List Rat", "List Int"):       # 0 + x0 + x1 + …, left to right
@@ -446,6 +579,13 @@ class Fn:
             fields = dict(self.cfg["records"].get(ta, []))
             if e.slice.value in fields:
                 return f"{a}.{e.slice.value}", fields[e.slice.value]
+        if isinstance(e, ast.Subscript) and ast.unparse(e.value) in (self.cfg.get("dicts") or {}):
+            # D[k] on a configured dict (a function parameter `k → Option v`): KeyError when absent
+            lean_fn, kt, vt = self.cfg["dicts"][ast.unparse(e.value)]
+            k, tk = self.expr(e.slice, defined)
+            if tk != kt:
+                raise Untranslatable(f"{src}: key of type {tk}")
+            return self.tmp(f"Generated.Py.pyDictGet {lean_fn} {k}", src), vt
         if isinstance(e, ast.Subscript) and not isinstance(e.slice, (ast.Slice, ast.Tuple)):
             a, ta = self.expr(e.value, defined)         # Python evaluates the container first, then the index
             elt = t_arg(ta, "List")
@@ -533,8 +673,8 @@ class Fn:
         src = ast.unparse(e)
         if src in self.narrow or src in self.cfg["env"]:
             return src
-        if isinstance(e, ast.Name) and e.id not in self.vars and (e.id in self.bound or e.id in self.params):
-            return src
+        if isinstance(e, ast.Name) and (e.id in self.vars or e.id in self.bound or e.id in self.params):
+            return src            # a local variable too: what is known about it is dropped when it is assigned
         if isinstance(e, ast.Attribute) and self.path_key(e.value) is not None:
             return src
         return None
@@ -667,6 +807,12 @@ class Fn:
                 return Test("list", scrut=term, pat=f"{v} :: _", narrow={key + "[0]": (v, elt)})
         return Test("bool", c=self.cond(e, defined))
 
+    def invalidate(self, names):
+        """forget what is known about these locals (they are assigned)"""
+        for k in list(self.narrow):
+            if any(k == n or k.startswith(n + ".") or k.startswith(n + "[") for n in names):
+                del self.narrow[k]
+
     def narrowed(self, test: Test, thunk, branch="then"):
         saved = dict(self.narrow)
         self.narrow.update(test.narrow if branch == "then" else test.narrow_else)
@@ -732,6 +878,7 @@ class Fn:
                 and st.value.func.attr == "append" and isinstance(st.value.func.value, ast.Name) \
                 and len(st.value.args) == 1 and not st.value.keywords:
             name = st.value.func.value.id
+            self.invalidate({name})
             if name not in self.vars or name not in defined or t_arg(self.vars[name], "List") is None:
                 raise Untranslatable(f"append to {name}, which is not a local list")
             v, ty = self.expr(st.value.args[0], defined)
@@ -755,8 +902,9 @@ class Fn:
                 self.alias_src[tgt.id] = st.value
                 return self.block(rest, defined, in_loop, ind)
             if isinstance(tgt, ast.Name):
-                if tgt.id in self.bound or (tgt.id in self.params and tgt.id not in self.vars):
-                    raise Untranslatable(f"assignment to the parameter / loop variable {tgt.id}")
+                if tgt.id in self.bound:
+                    raise Untranslatable(f"assignment to the loop variable {tgt.id}")
+                self.invalidate({tgt.id})
                 if isinstance(st.value, ast.List) and not st.value.elts:
                     v, ty = "[]", self.vars.get(tgt.id, "List ?")      # element type: fixed by the first `append`
                     if t_arg(ty, "List") is None:
@@ -821,6 +969,7 @@ class Fn:
             b, db, kb = self.narrowed(test, lambda: self.block(orelse, defined, in_loop, ind + "    "), "else")
             if ka != "fall" or kb != "fall":
                 raise Untranslatable("return / continue in the middle of a branch")
+            self.invalidate(stored_names(body + orelse))
             term, d2, kind = self.block(rest, da & db, in_loop, ind)
             return (f"{pre}{ind}let s {'←' if self.M else ':='}\n{test.wrap(a, b, ind + '  ', self.DO)}\n{term}",
                     d2, kind)
@@ -868,8 +1017,10 @@ class Fn:
             sig = f"Except Exc {self.st_type()} := do" if self.M else f"{self.st_type()} :="
             self.loops.append(f"/-- body of loop {n} -/\n"
                               f"def loop{n} {params} {outer_decl} (s : {self.st_type()}) ({x} : {xty}) : {sig}\n{body}\n")
-            args = " ".join([p for p, _ in self.cfg["params"]] + [a for a, _ in outer])
+            args = " ".join([n for n, _ in self.cfg.get("fn_params") or []] + [p for p, _ in self.cfg["params"]] +
+                            [a for a, _ in outer])
             # variables first assigned inside the loop are not definitely assigned after it
+            self.invalidate(stored_names(st.body))
             term, d2, kind = self.block(rest, defined, in_loop, ind)
             if self.M:
                 return f"{pre}{ind}let s ← {xs}.foldlM (loop{n} {args}) s\n{term}", d2, kind
@@ -879,6 +1030,10 @@ class Fn:
                 raise Untranslatable("statements after return")
             src = ast.unparse(self.unalias(st.value)) if st.value is not None else "None"
             pure = "pure " if self.M else ""
+            if src == "None" and self.cfg.get("implicit_return"):
+                # a function whose result is its effect: `return` / `return None` / falling off the end hand back the
+                # configured view of the final state
+                return f"{ind}{pure}{self.cfg['implicit_return']}", defined, "return"
             if src in self.cfg["returns"]:
                 return f"{ind}{pure}{self.cfg['returns'][src]}", defined, "return"
             v, ty = self.expr(st.value if st.value is not None else ast.Constant(value=None), defined)
@@ -905,12 +1060,22 @@ class Fn:
                 raise Untranslatable("a try body that can fall through")
             arms, seen = [], set()
             for h in st.handlers:
-                if not (isinstance(h.type, ast.Name) and h.type.id in EXC_CLASSES) or h.type.id in seen:
+                if not (isinstance(h.type, ast.Name) and h.type.id in EXC_CLASSES):
                     raise Untranslatable(f"handler {ast.unparse(h.type) if h.type else 'bare except'}")
-                seen.add(h.type.id)
-                if not (len(h.body) == 1 and isinstance(h.body[0], ast.Raise)):
-                    raise Untranslatable(f"handler body of except {h.type.id}")
-                arms.append(f"{ind}| .error Exc.{h.type.id} => throw Exc.{self.raised_class(h.body[0], defined, h.name)}")
+                if len(h.body) == 1 and isinstance(h.body[0], ast.Raise):
+                    hb = f"throw Exc.{self.raised_class(h.body[0], defined, h.name)}"
+                else:                 # a handler that returns (its body must not use the caught exception)
+                    if h.name and any(isinstance(n, ast.Name) and n.id == h.name for x in h.body for n in ast.walk(x)):
+                        raise Untranslatable(f"the handler of {h.type.id} uses the exception object")
+                    hterm, _, hkind = self.block(list(h.body), defined, in_loop, ind + "    ")
+                    if hkind != "return":
+                        raise Untranslatable(f"a handler of {h.type.id} that can fall through")
+                    hb = f"do\n{hterm}" if self.M else f"\n{hterm}"
+                # `except E` catches E and its subclasses; an earlier handler wins
+                for cls in [h.type.id] + EXC_SUBCLASSES.get(h.type.id, []):
+                    if cls not in seen:
+                        seen.add(cls)
+                        arms.append(f"{ind}| .error Exc.{cls} => {hb}")
             rty = self.st_type() if in_loop else lean_type(self.cfg["ret_type"])
             return (f"{ind}(match (show Except Exc {t_paren(rty)} from do\n{body}) with\n" + "\n".join(arms) +
                     f"\n{ind}| r => r)"), d2, "return"
@@ -953,8 +1118,10 @@ class Fn:
         return ("(St " + " ".join(tp) + ")") if tp else "St"
 
     def tparams(self) -> str:
+        """type parameters and the parameters that stand for helper functions / dicts (`fn_params`, Lean types)"""
         tp = self.cfg.get("type_params") or []
-        return ("{" + " ".join(tp) + " : Type} ") if tp else ""
+        fp = "".join(f"({n} : {t}) " for n, t in self.cfg.get("fn_params") or [])
+        return (("{" + " ".join(tp) + " : Type} ") if tp else "") + fp
 
 
 class Test:
@@ -980,7 +1147,23 @@ class Test:
         return f"{ind}(match {self.scrut} with\n{ind}| {empty} =>{do}\n{b}\n{ind}| {self.pat} =>{do}\n{a})"
 
 
-EXC_CLASSES = ("IndexError", "KeyError", "ZeroDivisionError", "ValueError", "TypeError", "AttributeError")
+EXC_CLASSES = ("IndexError", "KeyError", "ZeroDivisionError", "ValueError", "TypeError", "AttributeError",
+               "ColorValidationError")
+# the only subclass relation among them (rtflite's own class; checked against the imported class, `exceptions=`)
+EXC_SUBCLASSES = {"ValueError": ["ColorValidationError"]}
+
+
+def stored_names(stmts) -> set:
+    """the names a list of statements may assign (assignment targets, walrus targets)"""
+    out = set()
+    for st in stmts:
+        for n in ast.walk(st):
+            if isinstance(n, ast.Name) and isinstance(n.ctx, ast.Store):
+                out.add(n.id)
+            if isinstance(n, ast.Call) and isinstance(n.func, ast.Attribute) and n.func.attr == "append" and \
+                    isinstance(n.func.value, ast.Name):
+                out.add(n.func.value.id)
+    return out
 
 
 def t_paren(t: str) -> str:
@@ -991,29 +1174,63 @@ def t_app(ctor: str, arg: str) -> str:
     return f"{ctor} {arg}" if " " not in arg else f"{ctor} ({arg})"
 
 
-def t_arg(t: str, ctor: str):
-    """the argument of the type application `ctor X` (None when `t` is not one)"""
-    if not t.startswith(ctor + " "):
-        return None
-    inner = t[len(ctor) + 1:].strip()
-    if inner.startswith("("):
+def _top_split(t: str, sep: str) -> list[str]:
+    """split at the occurrences of `sep` that are not inside parentheses"""
+    out, depth, cur, k = [], 0, "", 0
+    while k < len(t):
+        if t[k] == "(":
+            depth += 1
+        elif t[k] == ")":
+            depth -= 1
+        if depth == 0 and t.startswith(sep, k):
+            out.append(cur)
+            cur = ""
+            k += len(sep)
+            continue
+        cur += t[k]
+        k += 1
+    return out + [cur]
+
+
+def _strip_parens(t: str) -> str:
+    t = t.strip()
+    while t.startswith("("):
         depth = 0
-        for i, ch in enumerate(inner):
+        for k, ch in enumerate(t):
             depth += ch == "("
             depth -= ch == ")"
             if depth == 0:
                 break
-        if i == len(inner) - 1:
-            inner = inner[1:-1].strip()
-    return inner
+        if k != len(t) - 1:
+            break
+        t = t[1:-1].strip()
+    return t
+
+
+def t_arg(t: str, ctor: str):
+    """the argument of the type application `ctor X` (None when `t` is not one): `X` is an atom or parenthesised"""
+    if not t.startswith(ctor + " ") or len(_top_split(t, " × ")) != 1:
+        return None
+    inner = t[len(ctor) + 1:].strip()
+    if len(_top_split(inner, " ")) != 1:
+        return None
+    return _strip_parens(inner)
 
 
 def lean_type(t: str) -> str:
+    t = _strip_parens(t)
+    parts = _top_split(t, " × ")
+    if len(parts) > 1:
+        return " × ".join(t_paren(lean_type(x)) if " × " in _strip_parens(x) else _lt_arg(x) for x in parts)
     for ctor in ("List", "Option"):
         a = t_arg(t, ctor)
         if a is not None:
             return t_app(ctor, lean_type(a))
     return {"Str": "List Nat", "Char": "Nat", "Truthy": "Bool", "None": "Option Unit"}.get(t, t)
+
+
+def _lt_arg(x: str) -> str:
+    return lean_type(x)
 
 
 def find_function(cfg) -> ast.FunctionDef:
@@ -1045,6 +1262,15 @@ def check_classes(cfg):
     """the configured record types against the imported classes: declared field types, default truthiness"""
     import importlib
 
+    for mod, cls, base in cfg.get("exceptions", []):
+        try:
+            c = getattr(importlib.import_module(mod), cls)
+            bases = [b.__name__ for b in c.__bases__]
+        except Exception as e:  # noqa: BLE001
+            raise Untranslatable(f"exception class {mod}.{cls}: {type(e).__name__}: {e}") from e
+        if bases != [base] or cls not in EXC_SUBCLASSES.get(base, []):
+            raise Untranslatable(f"exception class {mod}.{cls} derives from {bases}, the translation assumes {base}")
+
     for mod, cls, fields in cfg.get("classes", []):
         try:
             c = getattr(importlib.import_module(mod), cls)
@@ -1073,33 +1299,29 @@ def translate(cfg) -> str:
     stmts = list(node.body)
     shown = node
     if cfg.get("fragment"):
-        # consecutive top-level statements of the function, from the first one whose source starts with the first
-        # marker to the first one after it whose source starts with the second marker
-        first, last = cfg["fragment"]
+        # consecutive top-level statements of the function: from the first one whose source CONTAINS the first marker
+        # up to, not including, the first later one that contains the second marker.  The markers name methods /
+        # input paths (configuration), never locals, so renaming a local does not move the fragment.
+        first, stop = cfg["fragment"]
         srcs = [ast.unparse(x) for x in stmts]
-        i = next((k for k, t in enumerate(srcs) if t.startswith(first)), None)
-        j = next((k for k, t in enumerate(srcs) if i is not None and k >= i and t.startswith(last)), None)
+        i = next((k for k, t in enumerate(srcs) if first in t), None)
+        j = next((k for k, t in enumerate(srcs) if i is not None and k > i and stop in t), None)
         if i is None or j is None:
-            raise Untranslatable(f"fragment markers {first!r} … {last!r} not found")
-        stmts = stmts[i:j + 1]
+            raise Untranslatable(f"fragment markers {first!r} … {stop!r} not found")
+        stmts = stmts[i:j]
         shown = ast.Module(body=stmts, type_ignores=[])
+    if cfg.get("implicit_return") and not (stmts and isinstance(stmts[-1], ast.Return)):
+        stmts = stmts + [ast.Return(value=None)]           # falling off the end
     fn = Fn(cfg, node)
     fn.block(list(stmts), set(), False, "  ")
     seed = {k: v for k, v in fn.vars.items() if not k.startswith("out_")}
     fn = Fn(cfg, node, seed_vars=seed)            # second pass with the variable types of the first
-    body, _, kind = fn.block(list(stmts), set(), False, "    " if cfg.get("implicit_return") else "  ")
+    body, _, kind = fn.block(list(stmts), set(), False, "  ")
     if {k: v for k, v in fn.vars.items() if not k.startswith("out_")} != seed:
         raise Untranslatable("the types of the local variables do not settle")
     if kind != "return":
-        if not cfg.get("implicit_return"):
-            raise Untranslatable("a path reaches the end of the function without a return")
-        # the function (fragment) ends by falling off its end: its result is the configured view of the final state
-        arrow = "←" if fn.M else ":="
-        final = ("pure " if fn.M else "") + cfg["implicit_return"]
-        body = f"  let s {arrow}{fn.DO or ''}\n{body}\n  {final}"
-    elif cfg.get("implicit_return"):
-        body = textwrap.indent(textwrap.dedent(body), "  ")
-    lines = [f"import Generated.PyPrelude",
+        raise Untranslatable("a path reaches the end of the function without a return")
+    lines = [f"import Generated.PyPrelude"] + [f"import {m}" for m in cfg.get("imports", [])] + [
              "/-! GENERATED by harness/pytranslate.py from",
              f"`/repo/src/rtflite/{cfg['file']}` — `{cfg['cls']}.{cfg['func']}`.  Do not edit.",
              "",
@@ -1134,6 +1356,8 @@ def translate(cfg) -> str:
     else:
         lines.append(f"def run {params} : {lean_type(cfg['ret_type'])} :=")
     lines.append(f"  let s : {fn.st_type()} := {{}}")
+    for pname in fn.assigned_params:
+        lines.append(f"  let s := {{ s with {fn.fld(pname)} := {pname} }}")
     lines.append(body)
     lines += ["", f"end Generated.Py.{cfg['name']}", ""]
     names = "\n".join(f"  {fn.fld(v)} = {v} : {t}" for v, t in fn.vars.items() if not v.startswith("out_"))
@@ -1154,6 +1378,7 @@ def strOfInt (i : Int) : List Nat := Model.Escape.intRepr i
 An exception is represented by its class only (messages, causes and tracebacks are not modelled); the classes are
 leaves of Python's hierarchy, so `except E` catches exactly the value `Exc.E`. -/
 inductive Exc | IndexError | KeyError | ZeroDivisionError | ValueError | TypeError | AttributeError
+  | ColorValidationError   -- rtflite's own subclass of ValueError: `except ValueError` catches it too
   deriving DecidableEq, Repr, Inhabited
 
 /-- `a % b` on ints: `ZeroDivisionError` for `b = 0`, otherwise the remainder of floor division (sign of `b`) -/
@@ -1177,6 +1402,31 @@ def sumRat (xs : List Rat) : Rat := xs.foldl (· + ·) 0
 
 def sumInt (xs : List Int) : Int := xs.foldl (· + ·) 0
 
+/-- `d[k]` on a dict given as a lookup function: `KeyError` when the key is absent -/
+def pyDictGet {κ ν : Type} (d : κ → Option ν) (k : κ) : Except Exc ν :=
+  match d k with
+  | some v => .ok v
+  | none => .error .KeyError
+
+/-- `xs.index(v)`: the first position of `v`, `ValueError` when it does not occur -/
+def pyListIndex {α : Type} [DecidableEq α] (xs : List α) (v : α) : Except Exc Int :=
+  if xs.idxOf v < xs.length then .ok (Int.ofNat (xs.idxOf v)) else .error .ValueError
+
+/-- insertion before the first element whose key is not smaller (the inserted element stood earlier: stable) -/
+def insertByKey {α : Type} (x : α × Int) : List (α × Int) → List (α × Int)
+  | [] => [x]
+  | y :: ys => if x.2 ≤ y.2 then x :: y :: ys else y :: insertByKey x ys
+
+def sortByKey {α : Type} : List (α × Int) → List (α × Int)
+  | [] => []
+  | x :: xs => insertByKey x (sortByKey xs)
+
+/-- `sorted(xs, key=f)`: the keys are computed for all elements first, in order (the first failure is raised), then
+the list is sorted stably by key (Python's sort is stable) -/
+def pySortedByKey {α : Type} (xs : List α) (key : α → Except Exc Int) : Except Exc (List α) := do
+  let ks ← xs.mapM key
+  pure ((sortByKey (xs.zip ks)).map (·.1))
+
 end Generated.Py
 '''
 
@@ -1188,6 +1438,9 @@ def generate(out_dir: Path = OUT) -> dict:
     for cfg in TARGETS:
         path = out_dir / f"Py{cfg['name']}.lean"
         try:
+            for dep in cfg.get("depends", []):
+                if not status.get(dep, {}).get("ok"):
+                    raise Untranslatable(f"the function it calls ({dep}) is outside the translated subset")
             text = translate(cfg)
             status[cfg["name"]] = dict(ok=True, func=f"{cfg['cls']}.{cfg['func']}", file=cfg["file"])
         except Untranslatable as e:
